@@ -24,12 +24,19 @@ Definition all_zero (b : bytes) : bool := forallb (N.eqb 0) b.
 
 (* ---- the defects recorded for this property (true = behave as the code does today) ---- *)
 Record flags := mkflags {
-  f_auth  : bool;   (* LCP acknowledges CHAP with any (or no) algorithm byte *)
-  f_adopt : bool;   (* onIPCPUp overwrites the session address with a nil peer address *)
-  f_aaa   : bool    (* an unusable AAA IPv4 address (0.0.0.0, IPv6 literal) is kept by the session *)
+  f_auth   : bool;  (* LCP acknowledges CHAP with any (or no) algorithm byte               (fixed 54fb851) *)
+  f_adopt  : bool;  (* onIPCPUp overwrites the session address even with a nil peer address
+                       (PPPoE: fixed 95b0af2; LNS: as found)                                              *)
+  f_aaa    : bool;  (* an unusable AAA IPv4 address (0.0.0.0, IPv6 literal) is kept by the session
+                       (PPPoE: fixed bc32486; LNS: as found)                                              *)
+  f_keep   : bool;  (* SetPeerAddress keeps the peer.Address negotiated under the old assignment
+                       (fixed 95b0af2)                                                                    *)
+  f_always : bool   (* startNCP starts IPCP even when the session owns no usable address (LNS as found;
+                       PPPoE starts it only with a usable address since 24c9504)                          *)
 }.
-Definition repaired  : flags := mkflags false false false.
-Definition defective : flags := mkflags true true true.
+Definition repaired  : flags := mkflags false false false false false.
+Definition defective : flags := mkflags true true true true false.
+Definition lns_found : flags := mkflags false true true false true.
 
 (* ---- net.IP ---- *)
 Definition v4prefix : bytes := [0;0;0;0;0;0;0;0;0;0;255;255]%N.
@@ -259,6 +266,14 @@ Definition rca_event (st : N) (id : N) : list act * N :=
   | _ => ([], st)
   end%N.
 
+(* the Configure-Ack / Nak / Reject packets among the actions, and the states in which a
+   Configure-Request is answered with one of them (Stopped, Req-Sent, Ack-Rcvd, Ack-Sent, Opened) *)
+Definition is_conf (a : act) : bool :=
+  match a with Sca _ _ | Scn _ _ | Scj _ _ => true | _ => false end.
+Definition conf_packets (acts : list act) : list act := filter is_conf acts.
+Definition replies (st : N) : bool :=
+  (N.eqb st 3 || N.eqb st 6 || N.eqb st 7 || N.eqb st 8 || N.eqb st 9)%N.
+
 (* FSM.Input(ConfReq, id, data) for an IPCP instance: a request that does not parse is dropped
    before the handler runs *)
 Definition ipcp_input (c : ipcp_cfg) (st : N) (p : ipcp_peer) (id : N) (wire : bytes)
@@ -313,7 +328,7 @@ Definition build_confreq (c : ipcp_cfg) : list opt :=
    stale peer.Address can never be adopted; as found: peer.Address survives. *)
 Definition ipcp_set_peer (fl : flags) (c : ipcp_cfg) (p : ipcp_peer) (a : option bytes) : ipcp_cfg * ipcp_peer :=
   (mkicfg (to4o a) (ic_dns1 c) (ic_dns2 c) (ic_local c) (ic_rejected c),
-   if f_adopt fl then p else mkipeer None (pp_dns1 p) (pp_dns2 p)).
+   if f_keep fl then p else mkipeer None (pp_dns1 p) (pp_dns2 p)).
 
 Record iobj := mkiobj { io_cfg : ipcp_cfg; io_peer : ipcp_peer }.
 Inductive iop :=
@@ -441,8 +456,8 @@ Fixpoint v6obj_trace (s : v6obj) (ops : list v6op) : list (bytes * list opt * re
       end
   end.
 
-(* ---- the PPPoE session around IPCP (internal/pppoe/session.go) ---- *)
-Definition fallback_addr : bytes := (v4prefix ++ [100; 64; 0; 1])%N.   (* net.ParseIP("100.64.0.1") *)
+(* ---- the session around IPCP: internal/pppoe/session.go (PPPoE) and internal/l2tp/lns_lifecycle.go (LNS) ---- *)
+Inductive owner := PPPoE | LNS.
 
 (* extractIPFromAttributes (IPv4 attribute only): the parsed AAA address, if any *)
 Definition extract_ip (fl : flags) (aaa : option bytes) : option bytes :=
@@ -452,11 +467,12 @@ Definition extract_ip (fl : flags) (aaa : option bytes) : option bytes :=
   end.
 
 Record sess := mksess {
+  s_owner : owner;
   s_cfg : ipcp_cfg;
   s_fsm : N;
   s_peer : ipcp_peer;
-  s_addr : option bytes;      (* SessionState.IPv4Address *)
-  s_open : bool;              (* SessionState.ipcpOpen *)
+  s_addr : option bytes;      (* SessionState.IPv4Address / Session.IPv4Address *)
+  s_open : bool;              (* ipcpOpen *)
   s_lastreq : list opt        (* options of our last Configure-Request *)
 }.
 
@@ -474,23 +490,44 @@ Definition up_open (st : N) : list act * N :=
   | _ => ([], st)
   end%N.
 
-(* startNCP without registry and allocation context: IPCP is configured (SetPeerAddress, SetDNS with the
-   defaults 8.8.8.8 / 8.8.4.4) and started (Up + Open) only when the session owns a usable IPv4 address;
-   otherwise the session address is cleared and the IPCP object stays untouched (for a new session: in
-   Initial, nothing assigned) *)
+(* what the address registry answers during one startNCP call (outside this property: C01/C02) *)
+Record oracle := mkorc {
+  or_alloc : option bytes;    (* AllocateFromProfile when the session has no address: Some a / failure *)
+  or_reserve_ok : bool        (* ReserveIP of the session's address (PPPoE only): false = held by another session *)
+}.
+
+(* startNCP.
+   PPPoE (session.go:505): no address -> allocateFromPool; address -> ReserveIP, a conflict clears it;
+     default DNS 8.8.8.8 / 8.8.4.4; only with a usable address: SetPeerAddress, SetDNS, Up, Open; otherwise
+     the session address is cleared and the IPCP object is left alone.
+   LNS (lns_lifecycle.go:373): no address -> allocateIPv4; SetPeerAddress only when there is an address; DNS
+     only from profile / AAA (none here); as found Up, Open always; repaired like PPPoE. *)
 Definition dns_default1 : bytes := (v4prefix ++ [8;8;8;8])%N.
 Definition dns_default2 : bytes := (v4prefix ++ [8;8;4;4])%N.
-Definition start_ncp (fl : flags) (c : ipcp_cfg) (st : N) (p : ipcp_peer) (addr : option bytes)
-           (op : bool) (last : list opt) : sess * list act :=
-  if usable addr then
-    let (c1, p1) := ipcp_set_peer fl c p addr in
-    let c2 := mkicfg (ic_assigned c1) (to4 dns_default1) (to4 dns_default2) (ic_local c1) (ic_rejected c1) in
+Definition start_ncp (fl : flags) (ow : owner) (c : ipcp_cfg) (st : N) (p : ipcp_peer) (addr : option bytes)
+           (op : bool) (last : list opt) (orc : oracle) : sess * list act :=
+  let addr1 := match addr with
+               | None => or_alloc orc
+               | Some a => match ow with
+                           | PPPoE => if or_reserve_ok orc then Some a else None
+                           | LNS => Some a
+                           end
+               end in
+  if usable addr1 || f_always fl then
+    let (c1, p1) := match ow, addr1 with
+                    | LNS, None => (c, p)
+                    | _, _ => ipcp_set_peer fl c p addr1
+                    end in
+    let c2 := match ow with
+              | PPPoE => mkicfg (ic_assigned c1) (to4 dns_default1) (to4 dns_default2) (ic_local c1) (ic_rejected c1)
+              | LNS => c1
+              end in
     let (a, st') := up_open st in
-    (mksess c2 st' p1 addr op (next_req c2 a last), a)
-  else (mksess c st p None op last, []).
+    (mksess ow c2 st' p1 addr1 op (next_req c2 a last), a)
+  else (mksess ow c st p None op last, []).
 
-Definition sess_start (fl : flags) (aaa : option bytes) : sess :=
-  fst (start_ncp fl (mk_ipcp_cfg None None) 0 ipeer0 (extract_ip fl aaa) false []).
+Definition sess_start (fl : flags) (ow : owner) (aaa : option bytes) (orc : oracle) : sess :=
+  fst (start_ncp fl ow (mk_ipcp_cfg None None) 0 ipeer0 (extract_ip fl aaa) false [] orc).
 
 (* callbacks LayerUp = onIPCPUp, LayerDown = onIPCPDown *)
 Definition on_act (fl : flags) (p : ipcp_peer) (st : option bytes * bool) (a : act) : option bytes * bool :=
@@ -521,28 +558,29 @@ Inductive sev :=
 | EvAckW (wire : bytes)             (* Configure-Ack with our last identifier and arbitrary contents *)
 | EvNak (wire : bytes)              (* Configure-Nak with our last identifier *)
 | EvRej (wire : bytes)              (* Configure-Reject with our last identifier *)
-| EvReauth (aaa : option bytes).    (* LCP renegotiated, authentication repeated: extractIPFromAttributes with
+| EvReauth (aaa : option bytes) (orc : oracle).
+                                    (* LCP renegotiated, authentication repeated: extractIPFromAttributes with
                                        the new AAA answer and startNCP run again on the same session *)
 
 Definition sess_fsm_only (fl : flags) (s : sess) (c' : ipcp_cfg) (r : list act * N) : sess * list act :=
   let (a, st') := r in
   let (ad, op) := fold_left (on_act fl (s_peer s)) a (s_addr s, s_open s) in
-  (mksess c' st' (s_peer s) ad op (next_req c' a (s_lastreq s)), a).
+  (mksess (s_owner s) c' st' (s_peer s) ad op (next_req c' a (s_lastreq s)), a).
 
 Definition sess_step (fl : flags) (s : sess) (e : sev) : sess * list act :=
   match e with
   | EvReq id wire =>
       let '(a, st', p') := ipcp_input (s_cfg s) (s_fsm s) (s_peer s) id wire in
       let (ad, op) := fold_left (on_act fl p') a (s_addr s, s_open s) in
-      (mksess (s_cfg s) st' p' ad op (next_req (s_cfg s) a (s_lastreq s)), a)
+      (mksess (s_owner s) (s_cfg s) st' p' ad op (next_req (s_cfg s) a (s_lastreq s)), a)
   | EvAck => sess_fsm_only fl s (ipcp_learn (s_cfg s) (s_lastreq s)) (rca_event (s_fsm s) 0)
   | EvAckW w => sess_fsm_only fl s (ipcp_learn (s_cfg s) (parse_lenient w)) (rca_event (s_fsm s) 0)
   | EvNak w => sess_fsm_only fl s (ipcp_learn (s_cfg s) (parse_lenient w)) (rcn_event (s_fsm s) 0)
   | EvRej w => sess_fsm_only fl s (ipcp_rejected (s_cfg s) (parse_lenient w)) (rcn_event (s_fsm s) 0)
-  | EvReauth aaa =>
+  | EvReauth aaa orc =>
       (* the session address is kept unless AAA delivers a new one; then startNCP again *)
       let addr := match extract_ip fl aaa with Some x => Some x | None => s_addr s end in
-      start_ncp fl (s_cfg s) (s_fsm s) (s_peer s) addr (s_open s) (s_lastreq s)
+      start_ncp fl (s_owner s) (s_cfg s) (s_fsm s) (s_peer s) addr (s_open s) (s_lastreq s) orc
   end.
 
 Fixpoint sess_run (fl : flags) (s : sess) (es : list sev) : sess :=
